@@ -59,7 +59,8 @@ void byte_array::reserve(size_t size)
 
 void byte_array::resize(size_t size)
 {
-    reserve(size);
+    if (!p || size > p->capacity || p->ref > 1)
+        detach(size);
     if (p->size < size)
         ::memset(p->data + p->size, 0, size - p->size);
     p->size = size;
